@@ -48,6 +48,13 @@ func (fv *FV) cellLookup(st *State) func(string) (Term, bool) {
 						}
 					}
 				}
+				for c := range li.Cells {
+					if a, ok := c.(*ssa.Alloc); ok && a.Comment == "rangeindex" {
+						if v, ok := st.cells[CellID{Frame: 0, A: a}]; ok && v.K == VTerm {
+							return Term{S: "(+ " + v.T.S + " 1)", Sort: SInt, T: types.Typ[types.Int]}, true
+						}
+					}
+				}
 			}
 		}
 		if strings.HasPrefix(name, "seen") {
@@ -148,6 +155,8 @@ func (fv *FV) enterBlock(st *State, from, to *ssa.BasicBlock) *State {
 			}
 			fv.oblige(st, "dec", fmt.Sprintf("loop%d", li.Ord), pos, lexLess(cur, ent.Measure), li.Spec.Decreases[0].Text)
 		}
+		fv.checkErrProp(st, nil, pos)
+		st.errs = nil
 		fv.reportErrs(errs)
 		return nil // path ends at the back edge
 	}
@@ -223,6 +232,9 @@ func (fv *FV) havocLoop(st *State, li *LoopInfo) {
 				el := a.Type().(*types.Pointer).Elem()
 				nv := fv.freshConst(st, "h_"+a.Comment, old.T.Sort, el)
 				fv.typeAssume(st, nv, el)
+				if a.Comment == "rangeindex" {
+					st.assume(app(SBool, ">=", nv, mkInt(-1)))
+				}
 				st.cells[id] = tv(nv)
 			}
 		case *ssa.Range:
@@ -350,6 +362,15 @@ func (fv *FV) checkPost(st *State, x *ssa.Return, res []SymVal) {
 	var errs []string
 	env := fv.stateEnv(st, &errs)
 	fv.bindResults(env, st, fv.fn.Signature, res, nil)
+	{
+		rs := fv.fn.Signature.Results()
+		if n := rs.Len(); n > 0 && isErrorType(rs.At(n-1).Type()) && n-1 < len(res) {
+			rt := fv.term(st, res[n-1], rs.At(n-1).Type())
+			fv.checkErrProp(st, &rt, x.Pos())
+		} else {
+			fv.checkErrProp(st, nil, x.Pos())
+		}
+	}
 	for i, c := range fv.spec.Ensures {
 		g := env.Eval(c.E)
 		fv.oblige(st, "post", clauseName(c, i), x.Pos(), g, c.Text)
@@ -450,6 +471,13 @@ func (fv *FV) globalFrameCheck(st *State, name string, pos token.Pos) {
 func (fv *FV) mapFrameCheck(st *State, m Term, pos token.Pos) {
 	if fv.spec == nil || fv.spec.AssignsAll || fv.spec.NoFrame {
 		return
+	}
+	if m.T != nil {
+		if mt, ok := m.T.Underlying().(*types.Map); ok {
+			if fv.wildMaps()[mapValHeap(fv.sortOf(mt.Key()), fv.sortOf(mt.Elem()))] {
+				return
+			}
+		}
 	}
 	var errs []string
 	env := fv.stateEnv(st, &errs)
